@@ -183,9 +183,42 @@ async fn admission(a: &Value) -> Value {
     json!({"steps": out})
 }
 
+/// C11 wiring on real networks: are the configured inbound / outbound defaults in force for an RPC made through a network built in
+/// the given builder-call order?  The handler sleeps `handler_ms`; returns how the RPC ended and after how long.
+async fn default_timeouts(a: &Value) -> Value {
+    let handler_ms = a["handler_ms"].as_u64().unwrap();
+    let slow = tower::ServiceExt::boxed_clone(tower::service_fn(move |r: Request<Bytes>| async move {
+        tokio::time::sleep(Duration::from_millis(handler_ms)).await;
+        Ok::<_, std::convert::Infallible>(Response::new(r.into_body()))
+    }));
+    let mut server_cfg = Config::default();
+    server_cfg.inbound_request_timeout_ms = a.get("server_inbound_ms").and_then(|x| x.as_u64());
+    let server = anemo::Network::bind("127.0.0.1:0").server_name("verif").private_key([3; 32]).config(server_cfg).start(slow).expect("server");
+    let mut client_cfg = Config::default();
+    client_cfg.outbound_request_timeout_ms = a.get("client_outbound_ms").and_then(|x| x.as_u64());
+    let b = anemo::Network::bind("127.0.0.1:0").server_name("verif").private_key([4; 32]);
+    let id = tower::layer::util::Identity::new();
+    let b = match a["order"].as_str().unwrap() {
+        "layer_then_config" => b.outbound_request_layer(id).config(client_cfg),
+        "config_then_layer" => b.config(client_cfg).outbound_request_layer(id),
+        _ => b.config(client_cfg),
+    };
+    let client = b.start(echo()).expect("client");
+    let peer = client.connect(server.local_addr()).await.expect("connect");
+    let mut req = Request::new(Bytes::from_static(b"x"));
+    if let Some(ms) = a.get("header_ms").and_then(|x| x.as_u64()) { req.set_timeout(Duration::from_millis(ms)); }
+    let t0 = std::time::Instant::now();
+    let res = client.rpc(peer, req).await;
+    let ms = t0.elapsed().as_millis() as u64;
+    match res {
+        Ok(r) => json!({"outcome": "response", "status": r.status().to_u16(), "elapsed_ms": ms}),
+        Err(e) => json!({"outcome": "error", "error": e.to_string(), "elapsed_ms": ms}),
+    }
+}
+
 fn main() {
     let args: Vec<String> = std::env::args().collect();
-    let multi = matches!(args.get(1).map(|s| s.as_str()), Some("admission") | Some("active_peers_ops"));
+    let multi = matches!(args.get(1).map(|s| s.as_str()), Some("admission") | Some("default_timeouts"));
     let rt = if multi {
         tokio::runtime::Builder::new_multi_thread().worker_threads(2).enable_all().build().unwrap()
     } else {
@@ -288,6 +321,7 @@ async fn run(args: Vec<String>) {
         "timeout_select" => timeout_select(&a).await,
         "auth" => auth(&a).await,
         "admission" => admission(&a).await,
+        "default_timeouts" => default_timeouts(&a).await,
         other => json!({"error": format!("unknown scenario {other}")}),
     };
     println!("{}", out);
